@@ -335,15 +335,19 @@ def _c16_mutate(rec):
 
 reg(P("C16", "plugins", "c16",
       mc={"quick": [("ClusterImpl", "ClusterImpl_%s_%d.cfg" % (m, n), 300) for m in ("failover", "failtry", "failfast") for n in (1, 2, 3)]
-                   + [("ClusterImpl", "ClusterImpl_bug_sharedindex.cfg", 300, "violation")],
+                   + [("ClusterImpl", "ClusterImpl_bug_sharedindex.cfg", 300, "violation"),
+                      ("ClusterIndex", "ClusterIndex_store.cfg", 300), ("ClusterIndex", "ClusterIndex_cas.cfg", 300, "violation")],
           "thorough": [("ClusterImpl", "ClusterImpl_%s_%d.cfg" % (m, n), 300) for m in ("failover", "failtry", "failfast") for n in (1, 2, 3)]
                       + [("ClusterImpl", "ClusterImpl_failover_big.cfg", 900),
-                         ("ClusterImpl", "ClusterImpl_bug_sharedindex.cfg", 300, "violation")]},
+                         ("ClusterImpl", "ClusterImpl_bug_sharedindex.cfg", 300, "violation"),
+                         ("ClusterIndex", "ClusterIndex_store.cfg", 300), ("ClusterIndex", "ClusterIndex_cas.cfg", 300, "violation")]},
       traces=[("", "ClusterTrace", "ClusterTrace.cfg")],
       level="model_checking",
       rule="cases = (failover|failtry|failfast) x 1..3 servers x retry budget 0..max x plugin-default idempotent x per-call "
            "override x every outcome sequence over {ok,err,panic} of length retry+2; seeded sequences of 2-4 calls on one "
-           "client with per-call retry overrides and up to 4 servers; (forking|broadcast) x 1..3 servers x every outcome "
+           "client with per-call retry overrides and up to 4 servers; sequential failover calls after a burst of 4-12 "
+           "goroutines failing at once (the shared rotation index advanced and wrapped around concurrently; "
+           "ClusterIndex.tla); (forking|broadcast) x 1..3 servers x every outcome "
            "vector x every completion order; non-trivial = at least one scripted failure; distinct by construction",
       assumptions=["retry intervals are configured to zero", "fan-out completion order is the order in which the harness "
                    "releases the parked attempts; a fork's success must be followed by the caller's return within 3 s"],
@@ -390,15 +394,16 @@ def _c17_mutate(rec):
 
 
 _LIM_Q = [("LimiterImplMC", "LimiterImpl_%s.cfg" % c, 600) for c in ("sem1", "sem2", "sem2nt", "rate")] + \
-         [("LimiterImplMC", "LimiterImpl_rate_bug.cfg", 600, "violation")]
+         [("LimiterImplMC", "LimiterImpl_rate_bug.cfg", 600, "violation"), ("LimiterImplMC", "LimiterImpl_sem_bug_cancel.cfg", 600, "violation")]
 _LIM_T = [("LimiterImplMC", "LimiterImpl_%s.cfg" % c, 1500) for c in ("sem1", "sem2", "sem2nt", "sem_big", "rate", "rate_big")] + \
-         [("LimiterImplMC", "LimiterImpl_rate_bug.cfg", 600, "violation")]
+         [("LimiterImplMC", "LimiterImpl_rate_bug.cfg", 600, "violation"), ("LimiterImplMC", "LimiterImpl_sem_bug_cancel.cfg", 600, "violation")]
 reg(P("C17", "plugins", "c17",
       mc={"quick": _LIM_Q, "thorough": _LIM_T},
       traces=[("", "LimiterTrace", "LimiterTrace.cfg")],
       level="model_checking",
       rule="semaphore: every script up to the tier's length over {start, finish ok/err/panic, quiesce} x capacity 1..2 "
-           "with requests parked in the downstream handler, seeded scripts with real waits around a 20 ms time-out, a "
+           "with requests parked in the downstream handler, the same with a wait time-out and the latest caller's context "
+           "being cancelled in the alphabet, seeded scripts with real waits around a 20 ms time-out, a "
            "capacity probe at the end of every case; rate limiter: seeded sequential scripts (1-3 tokens, sleeps, "
            "time-outs) judged by interval arithmetic, free-running concurrent acquirers and acquirers forced through "
            "the load/store yield point judged on sampled windows; non-trivial = at least 3 operations",
